@@ -9,7 +9,7 @@ from . import common
 from .model import runs_of
 
 GFLAV = {
-    0: dict(name='int-T0', ids=[0, 1, 2, 3], T0=0),
+    0: dict(name='int-T-1', ids=[0, 1, 2, 3], T0=-1),      # instants straddle 0
     1: dict(name='str-T7', ids=['b', 'a', 'c', 'd'], T0=7),
     2: dict(name='int10-T-3', ids=[12, 10, 11, 13], T0=-3),
 }
@@ -108,7 +108,13 @@ def _work(args):
             continue
         signal.setitimer(signal.ITIMER_REAL, 120)
         try:
-            v, k = fn(c, sub)
+            try:
+                v, k = fn(c, sub)
+            except TimeoutError:
+                raise
+            except Exception as ex:
+                from .engine import crash_violation
+                v, k = [dict(crash_violation('?', 'graph', list(sub), ex), case={'gconf': c, 'atoms': list(sub)})], {}
         except TimeoutError:
             v, k = [{'property': '?', 'sub': 'timeout', 'sig': {'kind': 'timeout'}, 'case': {'gconf': c, 'atoms': list(sub)},
                      'detail': {}}], {}
@@ -152,7 +158,13 @@ def _iwork(args):
     for i in range(wid, n, nw):
         signal.setitimer(signal.ITIMER_REAL, 120)
         try:
-            v, k = fn(i, data)
+            try:
+                v, k = fn(i, data)
+            except TimeoutError:
+                raise
+            except Exception as ex:
+                from .engine import crash_violation
+                v, k = [dict(crash_violation('?', 'input', i, ex), case=dict(data or {}, index=i))], {}
         except TimeoutError:
             v, k = [{'property': '?', 'sub': 'timeout', 'sig': {'kind': 'timeout'}, 'case': {'index': i}, 'detail': {}}], {}
         finally:
